@@ -15,6 +15,7 @@ class FakeFS(object):
         self.root = os.path.abspath(root)
         os.makedirs(self.root, exist_ok=True)
         self.log = []
+        self.fail_next = None   # (operation, substring of the destination): one-shot injected failure
 
     def _resolve(self, p):
         p = str(p)
@@ -48,6 +49,9 @@ class FakeFS(object):
     def cp(self, from_, to, recurse=False):
         self.log.append(("cp", from_, to))
         src, dst = self._resolve(from_), self._resolve(to)
+        if self.fail_next and self.fail_next[0] == "cp" and self.fail_next[1] in str(to):
+            self.fail_next = None
+            raise IOError(f"injected failure: cp {from_} -> {to}")
         if not os.path.exists(src):
             raise FileNotFoundError(f"java.io.FileNotFoundException: {from_}")
         os.makedirs(os.path.dirname(dst), exist_ok=True)
